@@ -178,7 +178,9 @@ class BaseLoss(object):
         # so we first check the type
         self._observeT = t.copy()
         # and insert the initial value
-        self._t = np.insert(t, 0, t0)
+        # (np.append upcasts where np.insert would cast t0 to the dtype of t:
+        # integer observation times with t0=0.5 used to start at 0)
+        self._t = np.append(t0, t)
         # and length
         self._numTime = len(self._t)
 
